@@ -24,7 +24,8 @@ pub struct RecL {
     pub name: String,
     /// rest of the header line after a blank
     pub desc: Option<String>,
-    /// sequence length (>= 1); the symbols are a fixed function of (seed, position), see `base()`
+    /// sequence length (0 = a record without sequence: header line only, indexed the way samtools does, with 0
+    /// bases per line); the symbols are a fixed function of (seed, position), see `base()`
     pub len: usize,
     pub seed: u32,
     /// line width in bases (>= 1)
@@ -155,7 +156,14 @@ fn build(c: &Case) -> Built {
             file.extend_from_slice(line);
             file.extend_from_slice(nl);
         }
-        let (lb, lby) = if c.samtools_single && s.len() <= w { (s.len() as u64, s.len() as u64 + term) } else { (w as u64, w as u64 + term) };
+        let (lb, lby) = if s.is_empty() {
+            // `samtools faidx`: LINEBASES 0 and LINEWIDTH 0 for a record without sequence
+            if c.samtools_single { (0, 0) } else { (w as u64, w as u64 + term) }
+        } else if c.samtools_single && s.len() <= w {
+            (s.len() as u64, s.len() as u64 + term)
+        } else {
+            (w as u64, w as u64 + term)
+        };
         entries.push(Entry { name, len: s.len() as u64, offset, line_bases: lb, line_bytes: lby, width: w as u64, term });
         seqs.push(s);
     }
@@ -413,6 +421,9 @@ impl<'a> Run<'a> {
                 Op::Inverted { rec, by_name, a, b: bb, iter } => {
                     let r = pick(*rec);
                     let e = &b.entries[r];
+                    if e.len == 0 {
+                        continue; // no inverted interval inside an empty record
+                    }
                     let start = 1 + idx(*a, e.len as usize - 1) as u64;
                     let stop = idx(*bb, start as usize - 1) as u64;
                     self.misuse(&mut rd, i, r, *by_name, start, stop, *iter, &mut cur, &mut tainted, &mut buf)?;
@@ -661,7 +672,7 @@ impl<'a> Run<'a> {
 }
 
 pub fn check(c: &Case) -> R {
-    ensure!(!c.recs.is_empty() && c.recs.iter().all(|r| r.len >= 1 && r.width >= 1 && !r.name.is_empty()), "harness: invalid layout generated");
+    ensure!(!c.recs.is_empty() && c.recs.iter().all(|r| r.width >= 1 && !r.name.is_empty()), "harness: invalid layout generated");
     ensure!(!c.sched.is_empty(), "harness: empty schedule generated");
     let b = build(c);
     let mut seen = Seen::default();
@@ -681,6 +692,8 @@ pub fn check(c: &Case) -> R {
     pass.add_if(seen.span_8k, "fetch spanning > 8 KiB of the file");
     pass.add_if(seen.span_8k && c.sched.iter().any(|&s| s >= 8192), "several full buffer fills");
     pass.add_if(c.recs.iter().any(|r| r.len > 8192), "sequence > 8 KiB");
+    pass.add_if(c.recs.iter().any(|r| r.len == 0), "record without sequence");
+    pass.add_if(c.samtools_single && c.recs.iter().any(|r| r.len == 0), "record without sequence, samtools-style index entry (0 bases per line)");
     pass.add_if(seen.partial_iter_then_read, "partially consumed iterator, then another read");
     pass.add_if(seen.refetch_same_reader, "several fetches on one reader");
     pass.add_if(seen.iter_full, "iterator consumed completely");
@@ -700,7 +713,7 @@ pub fn check(c: &Case) -> R {
     pass.add_if(seen.cut_failure_compared, "cut file: failed read compared with a fresh reader");
     pass.add_if(seen.fetch_next, "sequential scan: fetch starting where the last interval ended / began");
     pass.add_if(c.recs.iter().any(|r| r.width == 1), "line width 1");
-    pass.add_if(c.recs.iter().any(|r| r.len % r.width == 0), "length multiple of line width");
+    pass.add_if(c.recs.iter().any(|r| r.len > 0 && r.len % r.width == 0), "length multiple of line width");
     pass.add_if(c.recs.iter().any(|r| r.len <= r.width), "single-line record");
     pass.add_if(c.samtools_single && c.recs.iter().any(|r| r.len <= r.width), "samtools-style index entry of a single-line record");
     pass.add_if(c.recs.iter().any(|r| r.width > 512), "line longer than the iterator buffer (512)");
@@ -726,7 +739,7 @@ fn name_strat() -> BoxedStrategy<String> {
 }
 
 fn rec_strat() -> BoxedStrategy<RecL> {
-    let len = prop_oneof![3 => 1usize..=20, 4 => 21usize..=300, 2 => 301usize..=3000, 2 => 8193usize..=20000];
+    let len = prop_oneof![1 => Just(0usize), 5 => 1usize..=20, 7 => 21usize..=300, 4 => 301usize..=3000, 4 => 8193usize..=20000];
     let width = prop_oneof![2 => 1usize..=4, 4 => 5usize..=70, 2 => 71usize..=700];
     (name_strat(), proptest::option::weighted(0.4, "[a-zA-Z0-9=;.]{1,8}( [a-zA-Z0-9=;.]{1,8}){0,2}"), len, any::<u32>(), width)
         .prop_map(|(name, desc, len, seed, width)| RecL { name, desc, len, seed, width })
